@@ -169,6 +169,20 @@ def check(run):
             atoms = G.guard_atoms(b, bb, prog)
             det = {"guards": G.atoms_show(atoms)[-8:]}
             o.check(any(a[0] == "eq" and a[2] is False and any(is_parent(x) for x in a[1]) for a in atoms), "try_reconstruct_block|parent-switch|not-same", "switch only to a different parent", spx, det)
+
+            def whole_parent(x):
+                x = K.peel(x)
+                return isinstance(x, tuple) and x[0] == "local" and x[1] == parent_local
+
+            def whole_new(x):
+                # the slice's whole `parent` payload (slot AND hash): <slice>.parent as Some.0, not a projection of it
+                x = K.peel(x)
+                return (isinstance(x, tuple) and x[0] == "field" and x[2] == "0" and isinstance(x[1], tuple) and x[1][0] == "variant" and x[1][2] == "Some"
+                        and K.is_field(x[1][1], "parent"))
+            same = [a for a in atoms if a[0] == "eq" and any(is_parent(x) for x in a[1])]
+            okw = bool(same) and all(a[2] is False and any(whole_parent(x) for x in a[1]) and any(whole_new(x) for x in a[1]) for a in same)
+            o.check(okw, "try_reconstruct_block|parent-switch|same-means-same-block", "'switched to the same parent' compares the whole block id (slot and hash): a switch to another block of the "
+                    "parent's slot is legitimate (equivocating previous leader) and must not be refused", spx, {"comparisons": G.atoms_show(same)})
             # the 'switched once' flag: a bool local, false on the path to the switch, set to true on it
             flags = [a for a in atoms if a[0] == "bool" and a[2] is False and a[1][0][0] == "local" and b.local_ty(a[1][0][1]) == "bool"]
             set_true = False
